@@ -870,8 +870,11 @@ class WriteTool(BaseTool):
         """
         corrections = []
 
-        # Map tokenize repairs to W002 (ASCII operator -> Unicode)
+        # Map tokenize repairs to W002 (ASCII operator -> Unicode). Only normalization records
+        # are rewrites; advisory lexer records (e.g. wrong-case literals) rewrite nothing.
         for token_repair in tokenize_repairs:
+            if token_repair.get("type") != "normalization":
+                continue
             corrections.append(
                 {
                     "code": "W002",
